@@ -485,14 +485,17 @@ def guarded_by_bit(fn, ref, mask, want_set, target):
     return False
 
 
-def delta_of(fn, new_ref, exp_ref):
-    """integer d such that new == exp + d syntactically, else None"""
-    ins = fn.get(new_ref) if isinstance(new_ref, str) else None
-    if ins is None:
-        if isinstance(new_ref, dict) and isinstance(exp_ref, dict) and 'c' in new_ref and 'c' in exp_ref:
-            return new_ref['c'] - exp_ref['c']
-        return None
-    if ins.op in ('add', 'sub'):
+def delta_of(fn, new_ref, exp_ref, at=None):
+    """integer d such that new == exp + d on every path (any arrangement of the arithmetic), else None.
+    With `at` (the instruction using the pair, e.g. the cmpxchg): `exp | m` counts as +m where bit m of exp was tested
+    clear on an edge dominating `at`, and `exp & ~m` as -m where it was tested set."""
+    d = affine_diff(fn, new_ref, exp_ref)
+    if not d:
+        return 0
+    if set(d) == {''}:
+        return d['']
+    ins = fn.get(fn.strip(new_ref)) if isinstance(new_ref, str) else None
+    if ins is not None and ins.op in ('add', 'sub'):
         a, b = ins.ops
         c = const_int(b)
         if c is not None and fn.sources(a) == fn.sources(exp_ref):
@@ -500,7 +503,78 @@ def delta_of(fn, new_ref, exp_ref):
         c = const_int(a)
         if ins.op == 'add' and c is not None and fn.sources(b) == fn.sources(exp_ref):
             return c
+    if ins is not None and ins.op in ('or', 'and') and at is not None:
+        for x, y in ((ins.ops[0], ins.ops[1]), (ins.ops[1], ins.ops[0])):
+            m = const_int(y)
+            if m is None or fn.sources(x) != fn.sources(exp_ref):
+                continue
+            if ins.op == 'or' and m > 0 and m & (m - 1) == 0 and guarded_by_bit(fn, exp_ref, m, False, at):
+                return m
+            nm = ~m & 0xffffffffffffffff
+            if ins.op == 'and' and nm & (nm - 1) == 0 and nm > 0 and guarded_by_bit(fn, exp_ref, nm, True, at):
+                return -nm
     return None
+
+
+PURE_OPS = ('add', 'sub', 'mul', 'shl', 'lshr', 'ashr', 'and', 'or', 'xor', 'zext', 'sext', 'trunc', 'bitcast', 'ptrtoint',
+            'inttoptr', 'sdiv', 'udiv', 'srem', 'urem', 'icmp', 'select', 'freeze')
+
+
+def same_expr(fn, x, y, depth=0):
+    """x and y compute the same value on every path: identical SSA value, or the same pure operation applied to
+    operands that are the same (value numbering; loads, calls and phis are equal only to themselves)"""
+    if isinstance(x, str):
+        x = fn.strip(x)
+    if isinstance(y, str):
+        y = fn.strip(y)
+    if isinstance(x, dict) or isinstance(y, dict):
+        cx, cy = const_int(x), const_int(y)
+        return (cx is not None and cx == cy) or (isinstance(x, dict) and isinstance(y, dict) and refkey(x) == refkey(y))
+    if x == y:
+        return True
+    if depth > 24:
+        return False
+    if not affine_diff(fn, x, y):
+        return True
+    ix, iy = fn.insts.get(x), fn.insts.get(y)
+    if ix is None or iy is None or ix.op != iy.op or ix.op not in PURE_OPS:
+        return False
+    if ix.op == 'icmp' and ix.pred != iy.pred:
+        return False
+    if len(ix.ops) != len(iy.ops):
+        return False
+    if all(same_expr(fn, a, b, depth + 1) for a, b in zip(ix.ops, iy.ops)):
+        return True
+    if ix.op in ('add', 'mul', 'and', 'or', 'xor') and len(ix.ops) == 2:
+        return same_expr(fn, ix.ops[0], iy.ops[1], depth + 1) and same_expr(fn, ix.ops[1], iy.ops[0], depth + 1)
+    return False
+
+
+def same_addr(fn, p, q):
+    """two pointer values designate the same location on every path: same root object and the same fields and
+    indices (indices compared as affine forms, so a re-computed but equal index expression matches)"""
+    a, b = fn.ap(p), fn.ap(q)
+    if a.key() == b.key():
+        return True
+    if len(a.steps) != len(b.steps):
+        return False
+    ra, rb = fn.strip(a.root) if isinstance(a.root, str) else a.root, fn.strip(b.root) if isinstance(b.root, str) else b.root
+    if ra != rb and not same_value(fn, a.root, b.root):
+        return False
+    for x, y in zip(a.steps, b.steps):
+        if x[0] != y[0]:
+            return False
+        if x[0] == 'f':
+            if x[1] != y[1]:
+                return False
+        elif x[1] != y[1]:
+            if isinstance(x[1], int) or isinstance(y[1], int):
+                if affine_diff(fn, x[1] if not isinstance(x[1], int) else {'c': x[1], 'w': 64},
+                               y[1] if not isinstance(y[1], int) else {'c': y[1], 'w': 64}):
+                    return False
+            elif affine_diff(fn, x[1], y[1]) and not same_expr(fn, x[1], y[1]):
+                return False
+    return True
 
 
 def is_load_of(fn, ref, field, volatile=None):
